@@ -25,6 +25,9 @@ type concScenario struct {
 	Name  string
 	State string // warm | warm-nolinker | stale-stamp | garble-cold | fully-cold
 	Cmds  []concCmd
+	// After[i] = "<cmd index>:<event kind>": command i starts when that command has logged the event
+	// (absent: starts at once).
+	After map[int]string
 }
 
 func concProjects(seed int64) map[string]*Prog {
@@ -125,12 +128,16 @@ func checkC17(c *Ctx) {
 	}
 	sleepy := "link.afterBuild=sleep:400;link.beforeBuild=sleep:150;pkgcache.beforePut=sleep:120;toolexec.beforeExec.link=sleep:50"
 	scenarios := []concScenario{
-		{"identical-x2-linker-deleted", "warm-nolinker", []concCmd{{"A", K0, nil, sleepy}, {"A", K0, nil, ""}}},
-		{"identical-x3-sleepy-puts", "warm", []concCmd{{"A", K0, nil, sleepy}, {"A", K0, []string{"-p=2"}, sleepy}, {"A", K0, []string{"-p=1"}, ""}}},
-		{"flags-and-projects-x4-stale-stamp", "stale-stamp", []concCmd{{"A", K0, []string{"-p=16"}, ""}, {"A", K1, nil, sleepy}, {"B", K0, []string{"-p=1"}, ""}, {"B", K3, nil, ""}}},
-		{"identical-x8-p2", "warm", []concCmd{{"B", K0, []string{"-p=2"}, ""}, {"B", K0, []string{"-p=2"}, sleepy}, {"B", K0, []string{"-p=2"}, ""}, {"B", K0, []string{"-p=2"}, ""}, {"B", K0, []string{"-p=2"}, sleepy}, {"B", K0, []string{"-p=2"}, ""}, {"B", K0, []string{"-p=2"}, ""}, {"B", K0, []string{"-p=2"}, ""}}},
-		{"mixed-x4-garble-cold", "garble-cold", []concCmd{{"A", K0, []string{"-p=16"}, ""}, {"A", K0, []string{"-p=1"}, ""}, {"A", K1, []string{"-p=2"}, ""}, {"B", K0, nil, ""}}},
-		{"identical-x2-fully-cold", "fully-cold", []concCmd{{"A", K0, nil, sleepy}, {"A", K0, nil, ""}}},
+		{Name: "identical-x2-linker-deleted", State: "warm-nolinker", Cmds: []concCmd{{"A", K0, nil, sleepy}, {"A", K0, nil, ""}}},
+		{Name: "identical-x3-sleepy-puts", State: "warm", Cmds: []concCmd{{"A", K0, nil, sleepy}, {"A", K0, []string{"-p=2"}, sleepy}, {"A", K0, []string{"-p=1"}, ""}}},
+		{Name: "flags-and-projects-x4-stale-stamp", State: "stale-stamp", Cmds: []concCmd{{"A", K0, []string{"-p=16"}, ""}, {"A", K1, nil, sleepy}, {"B", K0, []string{"-p=1"}, ""}, {"B", K3, nil, ""}}},
+		{Name: "identical-x8-p2", State: "warm", Cmds: []concCmd{{"B", K0, []string{"-p=2"}, ""}, {"B", K0, []string{"-p=2"}, sleepy}, {"B", K0, []string{"-p=2"}, ""}, {"B", K0, []string{"-p=2"}, ""}, {"B", K0, []string{"-p=2"}, sleepy}, {"B", K0, []string{"-p=2"}, ""}, {"B", K0, []string{"-p=2"}, ""}, {"B", K0, []string{"-p=2"}, ""}}},
+		{Name: "mixed-x4-garble-cold", State: "garble-cold", Cmds: []concCmd{{"A", K0, []string{"-p=16"}, ""}, {"A", K0, []string{"-p=1"}, ""}, {"A", K1, []string{"-p=2"}, ""}, {"B", K0, nil, ""}}},
+		{Name: "identical-x2-fully-cold", State: "fully-cold", Cmds: []concCmd{{"A", K0, nil, sleepy}, {"A", K0, nil, ""}}},
+		// Staged schedules: the second command reaches the linker protocol exactly while the first one sits
+		// between "linker built" and "linker stamped/executed".
+		{Name: "staged-second-arrives-after-linker-build", State: "warm-nolinker", Cmds: []concCmd{{"A", K0, nil, "link.afterBuild=sleep:9000"}, {"A", K0, nil, ""}}, After: map[int]string{1: "0:link.build.end"}},
+		{Name: "staged-second-arrives-after-stamp", State: "warm-nolinker", Cmds: []concCmd{{"A", K0, nil, "link.afterStamp=sleep:5000;toolexec.beforeExec.link=sleep:4000"}, {"B", K0, nil, ""}}, After: map[int]string{1: "0:link.stamp"}},
 	}
 	if !c.Quick() {
 		base := scenarios
@@ -142,8 +149,8 @@ func checkC17(c *Ctx) {
 			}
 		}
 		scenarios = append(scenarios,
-			concScenario{"flags-x3-fully-cold", "fully-cold", []concCmd{{"A", K0, nil, ""}, {"A", K1, nil, sleepy}, {"B", K3, nil, ""}}},
-			concScenario{"projects-x4-linker-deleted", "warm-nolinker", []concCmd{{"A", K0, nil, ""}, {"B", K0, nil, sleepy}, {"A", K3, nil, ""}, {"B", K1, nil, ""}}},
+			concScenario{Name: "flags-x3-fully-cold", State: "fully-cold", Cmds: []concCmd{{"A", K0, nil, ""}, {"A", K1, nil, sleepy}, {"B", K3, nil, ""}}},
+			concScenario{Name: "projects-x4-linker-deleted", State: "warm-nolinker", Cmds: []concCmd{{"A", K0, nil, ""}, {"B", K0, nil, sleepy}, {"A", K3, nil, ""}, {"B", K1, nil, ""}}},
 		)
 	}
 	classes := map[string]int{}
@@ -195,6 +202,20 @@ func checkC17(c *Ctx) {
 					env = append(env, "GARBLE_VERIF_FAIL="+cmd.Fail)
 				}
 				<-start
+				if after := sc.After[ci]; after != "" {
+					// Staged start: wait until another command of the scenario has reached a given point
+					// (a harness-controlled schedule; every such schedule is reachable without the harness).
+					var idx int
+					var kind string
+					fmt.Sscanf(strings.Replace(after, ":", " ", 1), "%d %s", &idx, &kind)
+					deadline := time.Now().Add(15 * time.Minute)
+					for time.Now().Before(deadline) {
+						if countKind(readEvents(results[idx].logDir), kind) > 0 {
+							break
+						}
+						time.Sleep(50 * time.Millisecond)
+					}
+				}
 				results[ci].r = works[ci].garbleBuild(g, box, cmd.Cfg, results[ci].bin, env, cmd.Extra...)
 			}(ci, cmd)
 		}
